@@ -233,6 +233,16 @@ def solve_scipy(
                 max_violation = max(max_violation, violation)
                 constraints_violated = True
 
+    # Variable bounds are part of the model even for methods that cannot take them
+    # (BFGS, CG, Newton-CG, COBYLA, ...): a point outside the bounds is not a solution.
+    if claims_optimal and bounds:
+        for x_i, (lb_i, ub_i) in zip(result.x, bounds):
+            bound_tol = atol + rtol * max(1.0, abs(x_i))
+            violation = max(lb_i - x_i, x_i - ub_i)
+            if violation > bound_tol:
+                max_violation = max(max_violation, violation)
+                constraints_violated = True
+
     # If SLSQP returned "optimal" but constraints are violated, retry with trust-constr
     if constraints_violated and method == "SLSQP":
         warnings.warn(
